@@ -15,9 +15,9 @@ import (
 const fmReward2 = "uiris" // sorts after "stake": rules are stored and iterated in denomination order
 
 type fmRule struct {
-	denom                        string
+	denom                       string
 	total, remaining, rpb, debt sdkmath.Int
-	rps                          sdkmath.LegacyDec
+	rps                         sdkmath.LegacyDec
 }
 
 func (e *fmEnv) seedPool2(locked sdkmath.Int, start, last, end int64, rules []fmRule) types.FarmPool {
@@ -189,21 +189,30 @@ func VerifC06_HarvestStep2() { verifFarmStep2(2) }
 // covers every block until the (one) new end height at the rule's new rate.
 func VerifC06_AdjustStep2() {
 	verifExpect("done", "refused")
-	end := int64(40)
-	h := []int64{20, 40}[verifChoice("when", 2)]
+	start, end := int64(5), int64(40)
+	when := verifChoice("when", 3) // mid-life, the block of the end height, before the start height
+	h := []int64{20, 40, 20}[when]
 	e := newFmEnv(h)
 	e.bank.supply[fmReward2] = sdkmath.ZeroInt()
 	zero, one := big.NewInt(0), big.NewInt(1)
 	w := verifPow2(40)
 	gap := int64(verifChoice("gap", 3))
 	last := h - gap
+	payFrom := last
 	locked := verifIntIn("locked", zero, w)
 	rules := fmSymRules(w, false, sdkmath.ZeroInt())
+	if when == 2 {
+		start, end, last, payFrom = 30, 50, 0, 30
+		verifAssume(locked.IsZero() && gap == 0)
+	}
 	for _, r := range rules {
 		// F5
-		verifAssume(r.remaining.BigInt().Cmp(verifMul(r.rpb.BigInt(), big.NewInt(end-last))) >= 0)
+		verifAssume(r.remaining.BigInt().Cmp(verifMul(r.rpb.BigInt(), big.NewInt(end-payFrom))) >= 0)
+		if when == 2 {
+			verifAssume(r.remaining.Equal(r.total) && r.rps.IsZero())
+		}
 	}
-	e.seedPool2(locked, 5, last, end, rules)
+	e.seedPool2(locked, start, last, end, rules)
 	e.bank.fund(vModuleAddr(types.ModuleName), fmLpt, locked)
 	var reward, rate sdk.Coins
 	appendAmt := []sdkmath.Int{sdkmath.ZeroInt(), sdkmath.ZeroInt()}
@@ -250,9 +259,13 @@ func VerifC06_AdjustStep2() {
 		verifAssert(stored[i].TotalReward.BigInt().Cmp(verifAdd(r.total.BigInt(), appendAmt[i].BigInt())) == 0, "total = old total + appended"+tag)
 		verifAssert(verifSub(e.mod(r.denom), mod0[i]).Cmp(verifSub(appendAmt[i].BigInt(), released)) == 0, "farm escrow holds exactly the remaining reward"+tag)
 		verifAssert(stored[i].RewardPerBlock.Equal(newRpb[i]), "the new rate is recorded, the other rule's rate is kept"+tag)
-		verifAssert(stored[i].RemainingReward.BigInt().Cmp(verifMul(newRpb[i].BigInt(), big.NewInt(0).SetInt64(pool.EndHeight-h))) >= 0, "F5 the remaining reward covers every block until the new end height"+tag)
+		from := h
+		if start > h {
+			from = start
+		}
+		verifAssert(stored[i].RemainingReward.BigInt().Cmp(verifMul(newRpb[i].BigInt(), big.NewInt(0).SetInt64(pool.EndHeight-from))) >= 0, "F5 the remaining reward covers every block until the new end height"+tag)
 	}
-	verifAssert(pool.LastHeightDistrRewards == h && pool.EndHeight >= h, "the pool is settled up to now and does not end in the past")
+	verifAssert(pool.LastHeightDistrRewards == h && pool.EndHeight >= h && pool.EndHeight >= pool.StartHeight && pool.StartHeight == start, "the pool is settled up to now, does not end in the past and keeps its start height")
 	st2 := e.store()
 	verifAssert(st2.Has(types.KeyActiveFarmPool(pool.EndHeight, e.poolID)) && (pool.EndHeight == end || !st2.Has(types.KeyActiveFarmPool(end, e.poolID))), "F4 the pool is queued exactly at its end height")
 }
